@@ -253,6 +253,70 @@ def run_dropwater(case):
     return res
 
 
+def run_dropwater_multi(case):
+    """Two chains; waters inside a chain's block (before its TER), in a
+    TER-delimited block of their own, or at the end of the file.  Reference:
+    the same file with the water lines deleted."""
+    from ..pdbfmt import atom_line
+
+    res = {"evals": 2, "violations": [], "events": {}, "nontrivial": []}
+    ff = case["ff"]
+    opts = [f"--ff={ff}"]
+    ids = ("A", "B") if case["ids"] == "AB" else ("", "")
+    seqs = (["SER", "LYS", "GLU"], ["HIS", "ASN", "TYR"])
+    lines = ["HEADER    VERIF BUILT STRUCTURE                   01-JAN-00"
+             "   XXXX"]
+    serial = 1
+    wnum = 101
+    tail = []
+    for k, (seq, cid) in enumerate(zip(seqs, ids)):
+        pep = build.build_peptide(seq, chain=cid, start=1 + 10 * k,
+                                  oxt=case["oxt"],
+                                  origin=(0.0, 0.0, 25.0 * k))
+        for a in pep:
+            x, y, z = a["xyz"]
+            lines.append(atom_line(serial, a["name"], a["res_name"], cid,
+                                   a["res_seq"], x, y, z))
+            serial += 1
+        wat = []
+        for j in range(2):
+            wat.append("W" + atom_line(
+                serial, "O", "HOH", cid, wnum, 30.0 + 4 * j, 5.0,
+                25.0 * k, record="HETATM"))
+            serial += 1
+            wnum += 1
+        if case["place"] == "before_ter":
+            lines += wat + ["TER"]
+        elif case["place"] == "own_block":
+            lines += ["TER"] + wat + ["TER"]
+        else:
+            lines += ["TER"]
+            tail += wat
+    lines += tail + ["END"]
+    with_w = "\n".join(l[1:] if l.startswith("W") else l
+                       for l in lines) + "\n"
+    without = "\n".join(l for l in lines if not l.startswith("W")) + "\n"
+    a = pipeline.run(with_w, opts + ["--drop-water"])
+    b = pipeline.run(without, opts)
+    tag = (f"{case['place']}/ids={case['ids']}/oxt={case['oxt']}/{ff}")
+    if a.ok != b.ok:
+        res["violations"].append({
+            "sig": f"C09/drop-water/outcome-differs/{case['place']}",
+            "detail": {"a": a.exc, "b": b.exc, "case": tag}})
+    elif a.ok:
+        res["nontrivial"].append("dropwater-multi:" + tag)
+        if a.pqr_text != b.pqr_text:
+            res["violations"].append({
+                "sig": "C09/drop-water/not-equal-to-water-deleted-input/"
+                       f"two-chains:{case['place']}/ids={case['ids']}/"
+                       f"oxt={case['oxt']}",
+                "detail": {"case": tag, "len_a": len(a.pqr_text),
+                           "len_b": len(b.pqr_text)}})
+    else:
+        res["events"]["dropwater-multi:both-abort"] = 1
+    return res
+
+
 def run_neutral(case):
     res = {"evals": 0, "violations": [], "events": {}, "nontrivial": []}
     x = case["x"]
@@ -333,6 +397,8 @@ def run_neutral(case):
 def run_case(case):
     if case["mode"] == "lattice":
         return run_lattice(case)
+    if case["mode"] == "dropwater_multi":
+        return run_dropwater_multi(case)
     if case["mode"] == "dropwater":
         return run_dropwater(case)
     return run_neutral(case)
@@ -359,6 +425,12 @@ def enumerate_cases(tier, seed):
                         cases.append({"mode": "dropwater", "ff": ff,
                                       "opts": opts, "where": where,
                                       "seq": seq, "records": records})
+    for ff in ("AMBER", "PARSE"):
+        for place in ("before_ter", "own_block", "end"):
+            for ids in ("AB", "blank"):
+                for oxt in (True, False):
+                    cases.append({"mode": "dropwater_multi", "ff": ff,
+                                  "place": place, "ids": ids, "oxt": oxt})
     for st in ("pep_wat", "two_blank", "pep_wide"):
         cases.append({"mode": "lattice", "structure": st, "ff": "AMBER",
                       "ffout": None, "clean": True})
